@@ -332,7 +332,7 @@ pub fn load_docs() -> Vec<(&'static str, String)> {
     let pk = |name: &str, inner: &str| format!("<AR-PACKAGE><SHORT-NAME>{name}</SHORT-NAME>{inner}</AR-PACKAGE>");
     vec![
         ("disjoint", format!("{}<AR-PACKAGES>{}</AR-PACKAGES></AUTOSAR>", h(V50), pk("z9", "<ELEMENTS><CAN-CLUSTER><SHORT-NAME>c</SHORT-NAME></CAN-CLUSTER></ELEMENTS>"))),
-        ("overlap-compatible", format!("{}<AR-PACKAGES>{}</AR-PACKAGES></AUTOSAR>", h(V50), pk("a", "<ELEMENTS><CAN-CLUSTER><SHORT-NAME>c</SHORT-NAME></CAN-CLUSTER><CAN-CLUSTER><SHORT-NAME>c9</SHORT-NAME></CAN-CLUSTER></ELEMENTS>"))),
+        ("overlap-compatible", format!("{}<AR-PACKAGES>{}</AR-PACKAGES></AUTOSAR>", h(V50), pk("a", "<ELEMENTS><CAN-CLUSTER><SHORT-NAME>c</SHORT-NAME><CAN-CLUSTER-VARIANTS><CAN-CLUSTER-CONDITIONAL><BAUDRATE>500000</BAUDRATE></CAN-CLUSTER-CONDITIONAL></CAN-CLUSTER-VARIANTS></CAN-CLUSTER><CAN-CLUSTER><SHORT-NAME>c9</SHORT-NAME></CAN-CLUSTER></ELEMENTS>"))),
         ("path-conflict", format!("{}<AR-PACKAGES>{}</AR-PACKAGES></AUTOSAR>", h(V50), pk("a", "<ELEMENTS><SYSTEM><SHORT-NAME>q1</SHORT-NAME></SYSTEM><SYSTEM><SHORT-NAME>c</SHORT-NAME></SYSTEM></ELEMENTS>"))),
         ("value-divergence", format!("{}<AR-PACKAGES>{}</AR-PACKAGES></AUTOSAR>", h(V50), pk("a", "<ELEMENTS><SYSTEM><SHORT-NAME>s</SHORT-NAME><SYSTEM-VERSION>1.0.0</SYSTEM-VERSION><PNC-VECTOR-LENGTH>4</PNC-VECTOR-LENGTH></SYSTEM></ELEMENTS>"))),
         ("lexer-error", format!("{}<AR-PACKAGES>{}<!-- unterminated comment", h(V50), pk("z2", "<ELEMENTS><CAN-CLUSTER><SHORT-NAME>c</SHORT-NAME></CAN-CLUSTER></ELEMENTS>"))),
@@ -1070,6 +1070,20 @@ pub fn transition_oracles(w: &World, pre: &PreState, op: &Op, out: &Outcome) -> 
                             if !w.m.get_references_to(&t).iter().any(|wk| wk.upgrade().as_ref() == Some(e)) {
                                 f.push(fd("C13", "copy|copied-reference-not-listed-under-its-text", t));
                             }
+                        }
+                    }
+                }
+                // the copy's name is unique among its siblings, and every element that had a path before still answers to it
+                if let (Some(n1), Ok(Some(parent))) = (copy.item_name(), copy.parent()) {
+                    if parent.sub_elements().filter(|sib| sib != copy && sib.item_name().as_deref() == Some(n1.as_str())).count() > 0 {
+                        f.push(fd("C13", "copy|name-of-the-copy-is-not-unique-among-its-siblings", n1));
+                    }
+                }
+                if matches!(op, Op::Copy(..) | Op::CopyAt(..)) {
+                    for (path, e) in &pre.paths {
+                        if w.m.get_element_by_path(path).as_ref() != Some(e) {
+                            f.push(fd("C13", "copy|existing-element-no-longer-found-by-its-path", path.clone()));
+                            break;
                         }
                     }
                 }
